@@ -165,7 +165,7 @@ pub fn run(ctx: &Ctx) -> (Stats, Report) {
     let s = pt_run(
         "C19/sequences",
         seed,
-        (if ctx.thorough { 6_000_000 } else { 600_000 }) / THREADS as u32,
+        (if ctx.thorough { 32_000_000 } else { 1_200_000 }) / THREADS as u32,
         THREADS,
         || {
             (
